@@ -182,7 +182,8 @@ def build_instruction(mn, variants):
         if v.get('specific'):
             ops['specific_operands'] = {}
             for ci, combo in enumerate(v['specific']):
-                ops['specific_operands'][f'c{ci}'] = {'list': {f'x{name}{k}': ALTS[name][1](code) for k, (name, code) in enumerate(combo)}}
+                pre = '' if v.get('specific_same_ids') else 'x'      # same ids: the listed operands are named like the set members
+                ops['specific_operands'][f'c{ci}'] = {'list': {f'{pre}{name}{k}': ALTS[name][1](code) for k, (name, code) in enumerate(combo)}}
         vcfgs.append({'bytecode': {'value': v['opcode'], 'size': 8}, 'operands': ops})
     cfg = dict(vcfgs[0])
     if len(vcfgs) > 1:
@@ -195,7 +196,7 @@ def meta(tier):
     return {
         'rule': 'one-slot: every ordered pair of variants whose single slot is any subset of size <=2 (thorough 3) of the 13 alternative '
                 'kinds (at most one numeric-like kind per set) x all 18 operand texts x mnemonic case; two-slot: variants over a '
-                'reduced subset list, with and without an explicitly listed combination and a disallowed pair, x pairs of 8 texts; '
+                'reduced subset list, with and without an explicitly listed combination and a disallowed pair (also both at once, for the same pair of operand ids), x pairs of 8 texts; '
                 'three variants over a reduced list; expected = opcode of the first accepting variant + code of the chosen '
                 'alternative (+ argument), or rejection; non-trivial = statement that more than one variant or more than one '
                 'alternative of a set could accept syntactically; distinct by construction',
@@ -344,7 +345,7 @@ def shard(acc, tier, idx, n):
         ctr += 1
         if ctr % n != idx:
             continue
-        for mode in ('plain', 'disallowed', 'specific'):
+        for mode in ('plain', 'disallowed', 'specific', 'listed+disallowed'):
             group = []
             for k, (i, j, i2, j2) in enumerate(combos[g0:g0 + G]):
                 v1 = {'opcode': 0xD1, 'sets': [[(nm, 1 + x) for x, nm in enumerate(red[i])], [(nm, 5 + x) for x, nm in enumerate(red[j])]]}
@@ -355,6 +356,12 @@ def shard(acc, tier, idx, n):
                     # an explicitly listed combination in the *second* variant and in the first: listed ones come before sets
                     v1['specific'] = [[(red[j][0], 15), (red[i][0], 4)]]
                     v2['specific'] = [[(red[i2][0], 8), (red[j2][0], 0)]]
+                elif mode == 'listed+disallowed':
+                    # the generic encoding of a pair is barred and a special encoding for exactly that pair is listed instead
+                    # (same operand ids): disallowed pairs prune what the sets produce, never a listed combination
+                    v1['disallowed'] = [red[i][0] + '0', red[j][0] + '1']
+                    v1['specific'] = [[(red[i][0], 15), (red[j][0], 4)]]
+                    v1['specific_same_ids'] = True
                 group.append((f't{k}', [v1, v2]))
             run_group(acc, group, two_texts)
     # ---- a disallowed ordered pair when both slots use the same operand set (so the reversed pair has the same ids) ----
